@@ -206,13 +206,21 @@ def apply_op(mpc, secint, op, x, c, nested):
     if op == 'rshift': return x[0] >> c
     if op == 'lshift': return x[0] << c
     if op == 'lsb': return mpc.lsb(x[0])
-    if op == 'sum': return mpc.sum(list(x))
-    if op == 'prod': return mpc.prod(list(x))
-    if op == 'all': return mpc.all(list(x))
-    if op == 'any': return mpc.any(list(x))
-    if op == 'inprod': return mpc.in_prod([x[0], x[2]], [x[1], x[3]])
+    # list-valued arguments: the caller goes on using its own lists right after the call (as demos/lpsolver.py does); results are those of the lists as passed
+    if op in ('sum', 'prod', 'all', 'any'):
+        a = list(x)
+        r = {'sum': mpc.sum, 'prod': mpc.prod, 'all': mpc.all, 'any': mpc.any}[op](a)
+        _reuse(a)
+        return r
+    if op == 'inprod':
+        a, b = [x[0], x[2]], [x[1], x[3]]
+        r = mpc.in_prod(a, b)
+        _reuse(a, b)
+        return r
     if op == 'matprod':
-        r = mpc.matrix_prod([[x[0], x[1]]], [[x[2], x[3]], [x[3], x[2]]])
+        A, B = [[x[0], x[1]]], [[x[2], x[3]], [x[3], x[2]]]
+        r = mpc.matrix_prod(A, B)
+        _reuse(A[0], B[0], B[1], B)
         return r[0][0] - r[0][1]
     if op == 'gcd': return mpc.gcd(x[0], x[1])
     if op == 'lcm': return mpc.lcm(x[0], x[1])
@@ -232,6 +240,16 @@ def apply_op(mpc, secint, op, x, c, nested):
     if op == 'or': return x[0] + x[1] - x[0] * x[1]
     if op == 'xor': return x[0] + x[1] - 2 * x[0] * x[1]
     raise KeyError(op)
+
+
+def _reuse(*lists):
+    """in-place edits of argument lists after a call"""
+    for L in lists:
+        if len(L) >= 2:
+            L[0], L[-1] = L[-1], L[0]
+        if L:
+            L.append(L[0])
+            L[0] = L[-1] if not isinstance(L[0], list) else L[0]
 
 
 PUBLIC_OPS = ('iszero_pub', 'eq_pub')
